@@ -2,6 +2,7 @@ import Rare.Drv.Expr
 import Rare.Drv.C11F64
 import Rare.Drv.C08Fmt
 import Rare.Spec.C11Hf
+import Rare.Drv.C11R4
 /-!
 C11 ops: the shared `expr` op, plus
 
@@ -14,6 +15,8 @@ arbitrary bytes and be as large as `bufio.Scanner`'s limits).  Answer: `ok val=<
   f64 …   the software binary64 model against the hardware, see `Rare/Drv/C11F64.lean`.
 
   fmt <format hex> <operands hexlist>    `{format …}` = `fmt.Sprintf` on string operands (`Rare/Drv/C08Fmt.lean`)
+
+  case / path / rt64 / expr with the full `upper` / `lower`: round-4 ops, see `Rare/Drv/C11R4.lean`
 
   spec hf <value hex>     `{hf value}` against the SPECIFICATION (not the model of the code): the rendering keeps
                           the sign, so `-Inf` must print `-Inf`.  The code prints `Inf` (known finding, see
@@ -55,6 +58,9 @@ def handle (args : List String) : String :=
     | some key, some content, some pre => lookupFile fn key content pre
     | _, _, _ => "bad-args")
   | _ =>
+    match Rare.Drv.C11R4.handle args with
+    | some a => a
+    | none =>
     match Rare.Drv.C11F64.handle args with
     | some a => a
     | none =>
